@@ -13,7 +13,7 @@ class Chan:
     def __init__(self, name): self.name = name
 
 
-@model(r'crossbeam_channel::unbounded$|crossbeam::channel::unbounded$')
+@model(r'crossbeam_channel::(un)?bounded$|crossbeam::channel::(un)?bounded$')
 def _(e, c, a):
     ch = Chan('chan%d' % len(getattr(e, 'chans', [])))
     e.chans = getattr(e, 'chans', []) + [ch]
